@@ -97,7 +97,8 @@ def main():
         for p in a.props.split(','):
             for seed in a.seeds.split(','):
                 cenv['VERIF_SEED'] = seed
-                rc, o = sh('./check %s --tier %s' % (p, a.tier), cwd=VERIF,
+                rc, o = sh('./check %s --tier %s' % (p, a.tier),
+                           cwd=os.environ.get('VERIF_CHECK_DIR', VERIF),
                            env=cenv, timeout=7200)
                 lines = [x for x in o.splitlines()
                          if x.startswith(('VIOLATION', 'INCONCLUSIVE'))
